@@ -132,6 +132,14 @@ LAW(L_fill_scale, RC, 8000, 250000, 140, "a 0/1 dimension or non-square matrix")
   Op A = genOp(c, genDim(c), genDim(c), integer);
   double x = genEntry(c, integer), y = genEntry(c, integer);
   if (fn >= 2 && c.below(6) == 5) { x = 1; if (c.flag()) y = 0; }  // the documented shortcut a=1, b=0
+  bool exact = integer;
+  if (fn >= 2 && c.oneIn(6)) {  // scalars next to, but not on, the identity pair (1, 0): the shortcut must be exact
+    int which = static_cast<int>(c.below(3));
+    x = 1; y = 0;
+    if (which != 1) x = 1 + (c.flag() ? 1 : -1) * std::ldexp(1.0, -static_cast<int>(c.irange(36, 53)));
+    if (which != 0) y = (c.flag() ? 1 : -1) * c.pick({5e-13, 1e-13, 1e-15, 1e-20, 1e-300, 4.9406564584124654e-324});
+    exact = false;
+  }
   bool abstractCall = c.flag();
   c.desc << (fn == 0 ? "fill " : fn == 1 ? "fillDiag " : fn == 2 ? "scale(a,b) " : "scale(a) ") << (abstractCall ? "(abstract) " : "") << show(A) << " x=" << num(x) << " y=" << num(y);
   c.nt(A.m.degenerate());
@@ -151,7 +159,7 @@ LAW(L_fill_scale, RC, 8000, 250000, 140, "a 0/1 dimension or non-square matrix")
       else if (fn == 2) MatrixTools::scale(X, x, y); else MatrixTools::scale(X, x);
     };
     if (abstractCall) call(*a); else withM(*a, A.k[w], call);
-    cmpRef(c, fn <= 1 ? "fill" : "scale", *a, A.k[w], ref, integer || fn <= 1);
+    cmpRef(c, fn <= 1 ? "fill" : "scale", *a, A.k[w], ref, exact || fn <= 1);
     res[w] = snap(*a);
   }
   sameRuns(res[0], res[1], "fill/scale");
